@@ -1909,8 +1909,11 @@ impl TypeChecker {
 
             (Type::Float | Type::Int, Type::Float | Type::Int) => Ok(()),
 
+            // An element that is still unknown is checked again when it becomes known, so the
+            // requirement has to be recorded on the elements as well.
             (Type::Tuple(a), Type::Float | Type::Int) => {
                 for a in a.iter() {
+                    self.add_constraint(*a, span, Constraint::DivTop(b));
                     self.div(span, ctx, *a, b)?;
                 }
                 Ok(())
@@ -1918,6 +1921,8 @@ impl TypeChecker {
 
             (Type::Tuple(a), Type::Tuple(b)) if a.len() == b.len() => {
                 for (a, b) in a.iter().zip(b.iter()) {
+                    self.add_constraint(*a, span, Constraint::DivTop(*b));
+                    self.add_constraint(*b, span, Constraint::DivBot(*a));
                     self.div(span, ctx, *a, *b)?;
                 }
                 Ok(())
@@ -1990,6 +1995,9 @@ impl TypeChecker {
 
             (Type::Tuple(a), Type::Tuple(b)) if a.len() == b.len() => {
                 for (a, b) in a.iter().zip(b.iter()) {
+                    // Elements that are still unknown are checked again when they become known.
+                    self.add_constraint(*a, span, Constraint::Cmp(*b));
+                    self.add_constraint(*b, span, Constraint::Cmp(*a));
                     self.cmp(span, ctx, *a, *b)?;
                 }
                 Ok(())
